@@ -3,9 +3,12 @@ package gen
 
 import (
 	"fmt"
+	"os"
+	"path/filepath"
 	"sort"
 	"strings"
 
+	"github.com/BondMachineHQ/BondMachine/pkg/bmnumbers"
 	"github.com/BondMachineHQ/BondMachine/pkg/bondmachine"
 	"github.com/BondMachineHQ/BondMachine/pkg/procbuilder"
 )
@@ -79,4 +82,31 @@ func NewBM(rsize uint8, machs []*procbuilder.Machine, inputs, outputs int, bonds
 		bm.Add_bond([]string{b[0], b[1]})
 	}
 	return bm
+}
+
+// EnableLinearQuantizer registers linear-quantizer data range number 1 (as the tools do with
+// -linear-data-range 1,<file>) and hands the range table to the opcode factory, so that
+// addlqs<s>t1 / multlqs<s>t1 / divlqs<s>t1 can be created. dir is a scratch directory.
+func EnableLinearQuantizer(dir string) error {
+	rf := filepath.Join(dir, "lqrange.txt")
+	if err := os.WriteFile(rf, []byte("0.5\n-3.0\n2.25\n"), 0o644); err != nil {
+		return err
+	}
+	if err := bmnumbers.LoadLinearDataRangesFromFile("1," + rf); err != nil {
+		return err
+	}
+	var lqRanges *map[int]bmnumbers.LinearDataRange
+	for _, t := range bmnumbers.AllDynamicalTypes {
+		if t.GetName() == "dyn_linear_quantizer" {
+			lqRanges = t.(bmnumbers.DynLinearQuantizer).Ranges
+		}
+	}
+	for i, t := range procbuilder.AllDynamicalInstructions {
+		if t.GetName() == "dyn_linear_quantizer" {
+			dynIst := t.(procbuilder.DynLinearQuantizer)
+			dynIst.Ranges = lqRanges
+			procbuilder.AllDynamicalInstructions[i] = dynIst
+		}
+	}
+	return nil
 }
